@@ -2159,8 +2159,22 @@ func (run *e3Run) oracle(final bool) {
 			switch {
 			case f.H == p.H+1:
 			case f.H == p.H && f.Inc != p.Inc && f.Hash == p.Hash:
-				// repeat of the last height right after a restart: the finalization was not stored yet
-				run.count("oracle.repeat-after-restart", 1)
+				// repeat of the last height right after a restart: fine if the finalization had not
+				// been stored when the node stopped. If the store held it, the application is made to
+				// execute a block twice: its finalized heights are not increasing.
+				held := false
+				if n := run.nodes[node]; n != nil {
+					n.mu.Lock()
+					held = n.finHeldAtStart[f.Inc][f.H]
+					n.mu.Unlock()
+				}
+				if held {
+					run.violate("C03:stored-height-finalized-again-after-restart",
+						fmt.Sprintf("node %d: incarnation %d started with the finalization of height %d in its store and asked the driver to finalize that height again (hash %s)", node, f.Inc, f.H, f.Hash),
+						map[string]any{"node": node, "records": recs})
+				} else {
+					run.count("oracle.repeat-after-restart", 1)
+				}
 			case f.H == p.H && f.Inc == p.Inc && f.Hash == p.Hash:
 				// the same block handed to the driver twice by one running engine: not "increasing",
 				// but kept apart from gaps and regressions (a different, milder defect)
